@@ -477,6 +477,27 @@ def lateral_nested_correlation(q):
     return found
 
 
+def const_left_subquery(q):
+    """structural class: some `a [NOT] IN (subquery)` / `a op ANY|ALL (subquery)` whose left operand a contains no
+    column reference (a constant expression)"""
+    def has_col(x):
+        if isinstance(x, list) and x:
+            if x[0] == "col":
+                return True
+            return any(has_col(y) for y in x)
+        return False
+
+    def scan(x):
+        if isinstance(x, list) and x:
+            if x[0] == "insub" and len(x) >= 4 and not has_col(x[2]):
+                return True
+            if x[0] == "quant" and len(x) >= 5 and not has_col(x[3]):
+                return True
+            return any(scan(y) for y in x)
+        return False
+    return scan(q)
+
+
 def count_null(e):
     """engine: a CORRELATED scalar subquery that is a global aggregate is decorrelated with a LEFT join on
     the grouped aggregate, so an outer row without partner rows gets NULL for every aggregate, count included.
